@@ -710,3 +710,150 @@ Proof.
   - split; [|vm_compute; reflexivity].
     intros n m o Hin. cbn in Hin. repeat (destruct Hin as [Hin|Hin]; [injection Hin as <- <- <-; cbn; intuition lia|]). contradiction.
 Qed.
+
+(* ================================================================================================ *)
+(* 7. whole molecules: from_rdkit_molecule then to_rdkit_molecule on the structure part *)
+Lemma sget_last_In {V} (d : list (string * V)) k v : sget_last d k = Some v -> In (k, v) d.
+Proof.
+  induction d as [|[k' v'] r IH]; intros H; [discriminate|]. cbn in H.
+  destruct (sget_last r k) as [w|] eqn:E.
+  - injection H as <-. right. apply IH. reflexivity.
+  - destruct (String.eqb k k') eqn:E2; [|discriminate]. apply String.eqb_eq in E2. injection H as <-. subst. left. reflexivity.
+Qed.
+
+Lemma rdkit_orders_supported_b : forallb (fun p => zmem (snd p) supported_orders) rdkit_bond_map = true.
+Proof. vm_compute. reflexivity. Qed.
+
+Lemma rdkit_bond_order_supported t o : rdkit_bond_order t = Ok o -> In o supported_orders.
+Proof.
+  unfold rdkit_bond_order. destruct (sget_last rdkit_bond_map t) as [o'|] eqn:E; intros H; [|discriminate]. injection H as <-.
+  apply sget_last_In in E. pose proof rdkit_orders_supported_b as Hb. rewrite forallb_forall in Hb. specialize (Hb _ E).
+  apply zmem_In. exact Hb.
+Qed.
+
+Lemma zrange_from_nth : forall n s k, (k < n)%nat -> nth k (zrange_from s n) 0 = s + Z.of_nat k.
+Proof.
+  induction n as [|n IH]; intros s k Hk; [lia|]. cbn [zrange_from]. destruct k as [|k]; cbn [nth]; [lia|].
+  rewrite IH by lia. lia.
+Qed.
+
+Lemma zrange_from_length : forall n s, List.length (zrange_from s n) = n.
+Proof. induction n as [|n IH]; intros s; cbn; [reflexivity | rewrite IH; reflexivity]. Qed.
+
+Lemma zrange_from_NoDup : forall n s, NoDup (zrange_from s n).
+Proof.
+  induction n as [|n IH]; intros s; cbn [zrange_from]; constructor; [|apply IH].
+  intros Hin. apply zrange_from_In in Hin. lia.
+Qed.
+
+Definition hd0 (l : list Z) : Z := match l with h :: _ => h | [] => 0 end.
+(* what to_rdkit_molecule makes of the atoms from_rdkit_molecule read: every property record comes back with the radical
+   electrons capped at 1, the total hydrogen count as explicit hydrogens and the new atom number as map number *)
+Fixpoint expect_ratoms (keep : bool) (i : Z) (ras : list ratom) (impls : list Z) : list ratom :=
+  match ras with
+  | [] => []
+  | r :: rest => mkR (r_num r) (r_iso r) (r_chg r) (if r_nrad r =? 0 then 0 else 1) (r_exph r + hd0 impls) (if keep then i + 1 else 0)
+                 :: expect_ratoms keep (i + 1) rest (tl impls)
+  end.
+Fixpoint hyd_nonneg (ras : list ratom) (impls : list Z) : Prop :=
+  match ras with
+  | [] => True
+  | r :: rest => 0 <= r_exph r + hd0 impls /\ hyd_nonneg rest (tl impls)
+  end.
+
+Section MoleculesBack.
+  Variable symbol : Z -> string.
+  Hypothesis symbol_faithful : forall z e, from_symbol (symbol z) = Some e -> e_num e = z.
+
+  Lemma atoms_to_from keep : forall ras i impls xy atoms,
+    from_atoms symbol i ras impls xy = Ok atoms -> hyd_nonneg ras impls ->
+    mapM (fun na => to_atom (fst na) keep (snd na)) atoms = Ok (expect_ratoms keep i ras impls) /\
+    map fst atoms = zrange_from (i + 1) (List.length ras).
+  Proof.
+    induction ras as [|r rest IH]; intros i impls xy atoms H Hh.
+    - cbn in H. injection H as <-. split; reflexivity.
+    - cbn [from_atoms] in H. destruct (match xy with p :: _ => p | [] => (czero, czero) end) as [x y].
+      destruct (from_atom symbol (match impls with h :: _ => h | [] => 0 end) x y r) as [c|] eqn:Ec; [|discriminate].
+      destruct (from_atoms symbol (i + 1) rest (tl impls) (tl xy)) as [l|] eqn:El; [|discriminate].
+      injection H as <-. destruct Hh as [Hpos Hrest].
+      destruct (IH _ _ _ _ El Hrest) as [IH1 IH2].
+      pose proof (to_from_atom symbol symbol_faithful _ x y r c (i + 1) keep Ec Hpos) as Hto.
+      split.
+      + cbn [mapM fst snd]. rewrite Hto. rewrite IH1. reflexivity.
+      + cbn [map fst List.length zrange_from]. rewrite IH2. reflexivity.
+  Qed.
+
+  Definition rbond_image (rb rb' : Z * Z * string) : Prop :=
+    let '(bi, ei, t) := rb in
+    exists o t', rdkit_bond_order t = Ok o /\ bond_type o = Ok t' /\ (rb' = (bi, ei, t') \/ rb' = (ei, bi, t')).
+
+  Lemma bonds_to_from (atoms : list (Z * catom)) N : map fst atoms = zrange_from 1 N ->
+    forall rbs bonds,
+      (forall bi ei t, In (bi, ei, t) rbs -> 0 <= bi < Z.of_nat N /\ 0 <= ei < Z.of_nat N) ->
+      mapM (fun b => let '(bi, ei, t) := b in from_bond (bi + 1) (ei + 1) t) rbs = Ok bonds ->
+      exists rbs', mapM (to_bond_idx atoms (index_map (map fst atoms))) bonds = Ok rbs' /\ Forall2 rbond_image rbs rbs'.
+  Proof.
+    intros Hnums. induction rbs as [|[[bi ei] t] r IH]; intros bonds Hrange H.
+    - cbn in H. injection H as <-. exists []. split; [reflexivity | constructor].
+    - cbn [mapM] in H. unfold from_bond at 1 in H. destruct (rdkit_bond_order t) as [o|] eqn:Eo; [|discriminate].
+      destruct (mapM (fun b => let '(bi0, ei0, t0) := b in from_bond (bi0 + 1) (ei0 + 1) t0) r) as [bs|] eqn:Ebs; [|discriminate].
+      injection H as <-.
+      destruct (IH bs) as (rbs' & Hrbs' & HF); [intros bi' ei' t0 Hin'; apply (Hrange bi' ei' t0); right; exact Hin' | reflexivity |].
+      destruct (Hrange bi ei t (or_introl eq_refl)) as [Hbi Hei].
+      pose proof (rdkit_bond_order_supported _ _ Eo) as Ho.
+      assert (Hnth : forall z, 0 <= z < Z.of_nat N -> (Z.to_nat z < List.length (map fst atoms))%nat /\ nth (Z.to_nat z) (map fst atoms) 0 = z + 1).
+      { intros z Hz. rewrite Hnums, zrange_from_length. split; [lia|]. rewrite zrange_from_nth by lia. lia. }
+      assert (Hnd : NoDup (map fst atoms)) by (rewrite Hnums; apply zrange_from_NoDup).
+      destruct (Hnth bi Hbi) as [Lb Nb]. destruct (Hnth ei Hei) as [Le Ne].
+      pose proof (index_map_lookup _ _ Hnd Lb) as Ib. pose proof (index_map_lookup _ _ Hnd Le) as Ie.
+      rewrite Nb in Ib. rewrite Ne in Ie. rewrite Z2Nat.id in Ib, Ie by lia.
+      assert (Hin : In (bi + 1) (map fst atoms)) by (rewrite <- Nb; apply nth_In; exact Lb).
+      destruct (zget_In_keys atoms _ Hin) as [a Ha].
+      destruct (from_to_bond (chython_symbol (c_num a)) (bi + 1) (ei + 1) o Ho) as (b & e & t' & Hto & _).
+      destruct (to_bond_shape _ _ _ _ _ _ _ Hto) as [Hshape Ht'].
+      destruct Hshape as [E|E]; injection E as -> ->.
+      + exists ((bi, ei, t') :: rbs'). split.
+        * cbn [mapM]. unfold to_bond_idx at 1. rewrite Ha, Hto, Ib, Ie, Hrbs'. reflexivity.
+        * constructor; [|exact HF]. exists o, t'. auto.
+      + exists ((ei, bi, t') :: rbs'). split.
+        * cbn [mapM]. unfold to_bond_idx at 1. rewrite Ha, Hto, Ib, Ie, Hrbs'. reflexivity.
+        * constructor; [|exact HF]. exists o, t'. auto.
+  Qed.
+
+  (* RDKit -> chython -> RDKit on a whole molecule (structure part): whatever from_rdkit_molecule accepts (bond ends being
+     atom indices, no negative hydrogen totals) is written back without error with the same atoms in the same order
+     ([expect_ratoms]) and, bond by bond in the same order, a bond between the same two atoms whose type is the image of the
+     type under the two dictionaries (the same type for SINGLE/DOUBLE/TRIPLE/AROMATIC/DATIVE, see bond_maps_inverse), possibly
+     with begin and end exchanged (dative_to_from says when the direction of a dative bond survives). *)
+  Theorem to_from_mol : forall keep impls xy ras rbs atoms bonds,
+    from_mol symbol impls xy (ras, rbs) = Ok (atoms, bonds) -> hyd_nonneg ras impls ->
+    (forall bi ei t, In (bi, ei, t) rbs -> 0 <= bi < Z.of_nat (List.length ras) /\ 0 <= ei < Z.of_nat (List.length ras)) ->
+    exists rbs', to_mol keep (atoms, bonds) = Ok (expect_ratoms keep 0 ras impls, rbs') /\ Forall2 rbond_image rbs rbs'.
+  Proof.
+    intros keep impls xy ras rbs atoms bonds H Hh Hr. unfold from_mol in H.
+    destruct (from_atoms symbol 0 ras impls xy) as [at'|] eqn:Ea; [|discriminate].
+    destruct (mapM (fun b => let '(bi, ei, t) := b in from_bond (bi + 1) (ei + 1) t) rbs) as [bs|] eqn:Eb; [|discriminate].
+    injection H as <- <-.
+    destruct (atoms_to_from keep _ _ _ _ _ Ea Hh) as [H1 H2].
+    destruct (bonds_to_from at' _ H2 rbs bs Hr Eb) as (rbs' & Hrbs' & HF).
+    exists rbs'. split; [|exact HF]. unfold to_mol. rewrite H1. unfold to_bond_idx in Hrbs'. rewrite Hrbs'. reflexivity.
+  Qed.
+
+  Corollary to_from_mol_invertible_types : forall rb rb', rbond_image rb rb' -> In (snd rb) invertible_types ->
+    rb' = rb \/ rb' = (snd (fst rb), fst (fst rb), snd rb).
+  Proof.
+    intros [[bi ei] t] rb' (o & t' & Ho & Ht' & Hs) Hin. cbn [fst snd] in *.
+    destruct (proj2 bond_maps_inverse t Hin) as (o2 & Ho2 & Hback). rewrite Ho in Ho2. injection Ho2 as <-.
+    rewrite Ht' in Hback. injection Hback as ->. exact Hs.
+  Qed.
+End MoleculesBack.
+
+Example to_from_mol_example :
+  let ras := [mkR 7 15 1 0 3 0; mkR 29 0 1 0 0 4] in
+  let rbs := [(0, 1, "DATIVE")] in
+  from_mol chython_symbol [0; 0] [(1, 2); (3, 4)] (ras, rbs) =
+    Ok ([(1, mkC 7 (Some 15) 1 false (Some 3) (Some 0) 1 2); (2, mkC 29 None 1 false (Some 0) (Some 4) 3 4)], [(1, 2, 8)]) /\
+  hyd_nonneg ras [0; 0] /\
+  to_mol true ([(1, mkC 7 (Some 15) 1 false (Some 3) (Some 0) 1 2); (2, mkC 29 None 1 false (Some 0) (Some 4) 3 4)], [(1, 2, 8)]) =
+    Ok ([mkR 7 15 1 0 3 1; mkR 29 0 1 0 0 2], rbs).
+Proof. cbn zeta. split; [vm_compute; reflexivity|]. split; [cbn; lia | vm_compute; reflexivity]. Qed.
